@@ -125,6 +125,21 @@ def swizzle_probes():
     return out
 
 
+# Two classes of accepted programs that DO go wrong; both are recorded as known findings (see known_findings.json) and are
+# identified by these probe families, so that any other internal failure is still reported.
+SHAPE_MISMATCH = [   # a value of another SHAPE than the declared type is assigned / returned (the front end never compares them), then used
+    ("export function f(int a, int4 b) -> int { int t = a; t = a * b; return t + 1; }", dict(a="int", b="int4")),
+    ("function g(float3 v) -> float { return v; }\nexport function f(float3 v) -> float { return g(v) * 2.0; }", dict(v="float3")),
+    ("export function f(float2 a, float b) -> float2 { a.xy = b; return a; }", dict(a="float2", b="float")),
+    ("export function f(float4x4 m, float4 v) -> float { float4 w = m; return w.x + 1.0; }", dict(m="float4x4", v="float4")),
+]
+NONFINITE_CAST = [   # float -> int conversion of an infinity or a NaN (math.floor raises)
+    ("export function f(float a) -> int { int i = a; return i; }", dict(a="float")),
+    ("export function f(float a, int[4] t) -> int { return t[a * a]; }", dict(a="float", t="int[4]")),
+    ("export function f(float3 v) -> int3 { int3 k = v; return k; }", dict(v="float3")),
+]
+
+
 ILL_TYPED = ["export function f(int a) -> int { return b; }", "export function f(float2 a, float3 b) -> float2 { return a + b; }",
              "export function f(int a) -> int { break; return a; }", "export function f(int a) -> int { int a = 1; return a; }",
              "export function f(float3 a) -> float { return a.w; }", "export function f(int[2] t) -> int { return t[2]; }",
@@ -132,7 +147,33 @@ ILL_TYPED = ["export function f(int a) -> int { return b; }", "export function f
              "export function f(float2 a) -> float2 { return a * a; }", "export function f(int[2] t, float x) -> int { return t[x]; }"]
 
 
-def run_probe(run, src, ptys, origin):
+_drv = None
+
+
+def irtype(run, module, origin, src, opt, expect_ok=False):
+    """The verified IR type checker (Props/C05IR.lean) on the dump of the real IR: `full=yes` is a machine-checked proof that this
+    module never fails internally on typed inputs (except floor of a non-finite float), `strict=yes` without exception."""
+    global _drv
+    if _drv is None: _drv = common.Driver()
+    try:
+        ps = implrun.program_sexp(module.Functions, module.Globals)
+    except BaseException as e:
+        run.count("irtype:undumpable"); return None
+    if _drv.ask("irprog " + ps) != "ok":
+        run.count("irtype:driver-cannot-parse"); return None
+    ans = _drv.ask("irtylayers")
+    full = "full=yes" in ans
+    run.count("irtype:%s:%s" % (origin, "strict" if "strict=yes" in ans else ("proved-up-to-nonfinite-cast" if full else "REJECTED")))
+    if not full:
+        detail = _drv.ask("irtycheck")
+        if expect_ok:
+            run.mismatch("irtype-rejects-well-typed-program", dict(source=src, optimize=opt), detail[:200], "front end accepted; generated as well-typed")
+        elif len(run.notes) < 12:
+            run.notes.append("not type-correct IR (front end accepted): %s | %s" % (detail[:120], src[:160].replace("\n", " ")))
+    return full
+
+
+def run_probe(run, src, ptys, origin, inputs=None):
     fe = frontend(src)
     if fe == "syntax":
         run.count(origin + ":syntax-error"); return
@@ -153,16 +194,20 @@ def run_probe(run, src, ptys, origin):
         except BaseException as e:
             run.case((src, opt, "link"), nontrivial=True)
             run.fail("link", inp, "linking the accepted program fails: %s" % type(e).__name__, key="internal:link:" + type(e).__name__); continue
+        typed = irtype(run, c[1].IRModule, origin, src, opt)
         if ptys is None: continue
         rng = random.Random(hash(src) & 0xffff)
-        for k in range(3):
-            args = {n: (rng.randrange(0, 2) if t == "idx" else value_of(rng, t)) for n, t in ptys.items()}
+        for k in range(3 if inputs is None else len(inputs)):
+            args = {n: (rng.randrange(0, 2) if t == "idx" else value_of(rng, t)) for n, t in ptys.items()} if inputs is None else copy.deepcopy(inputs[k])
             vm = implrun.new_vm(prog)
             r = implrun.invoke(vm, "f", copy.deepcopy(args), limit=3)
             run.case((src, opt, k), nontrivial=True, sample=dict(source=src, optimize=opt, args=args, outcome=r[0]) if (len(run.samples) < 3 and "float3x3" in src and opt) else None)
             run.count("outcome:" + r[0])
             if r[0] == "internal":
-                run.fail("run-time", dict(inp, args=args, site=r[1]), "optimize=%s f(%s) fails with %s\n%s" % (opt, args, r[1], src[:300]), key="internal:run:" + r[1])
+                if typed and origin != "nonfinite-cast":
+                    run.mismatch("theorem-instance:C05_typed_ir", dict(inp, args=args), "irTypeCheck accepts the IR", "the real VM fails internally: %s" % (r[1],))
+                fam = origin if origin in ("shape-mismatch", "nonfinite-cast") else "internal:run"
+                run.fail("run-time", dict(inp, args={k: repr(v) for k, v in args.items()}, site=r[1]), "optimize=%s f(%s) fails with %s\n%s" % (opt, args, r[1], src[:300]), key=fam + ":" + r[1])
                 break
 
 
@@ -177,16 +222,25 @@ def judge_generated(run, rec):
             run.fail("after-front-end", dict(base, optimize=opt, site=rj[0]), "a well-typed generated program does not compile (optimize=%s): %s\n%s" % (opt, rj, src[:600]),
                      key="internal:lowering:%s@%s" % (rj[0][0], rj[0][1]))
             continue
+        ity = rec.get("irtype" + tag)
+        typed = ity is not None and "full=yes" in ity
+        if ity is not None:
+            run.count("irtype:generated:%s" % ("strict" if "strict=yes" in ity else ("proved-up-to-nonfinite-cast" if typed else "REJECTED")))
+            if not typed:
+                run.mismatch("irtype-rejects-well-typed-program", dict(base, optimize=opt), rec.get("irtype_detail" + tag, "?"), "generated as well-typed; front end accepted")
         obs = rec["obs"].get("impl" + tag, [])
         for j, o in enumerate(obs):
             run.case((src, opt, j), nontrivial=True); run.count("outcome:" + o[0])
             if o[0] == "internal":
+                if typed: run.mismatch("theorem-instance:C05_typed_ir", dict(base, optimize=opt, input_index=j), "irTypeCheck accepts the IR", "the real VM fails internally: %s" % (o[1],))
                 run.fail("run-time", dict(base, optimize=opt, input_index=j, site=o[1]), "optimize=%s input %d fails with %s\n%s" % (opt, j, o[1], src[:800]), key="internal:run:" + str(o[1]))
                 break
 
 
 def explore(run, scale=1):
+    global _drv
     implrun.load()
+    _drv = None
     ps = probes()
     if run.tier != "thorough":
         ps = [p for i, p in enumerate(ps) if i % 3 == (run.seed % 3)] + ps[-5:]
@@ -194,6 +248,13 @@ def explore(run, scale=1):
         run_probe(run, src, ptys, "probe")
     for src, ptys in conv_probes():
         run_probe(run, src, ptys, "conv")
+    for src, ptys in SHAPE_MISMATCH:
+        run_probe(run, src, ptys, "shape-mismatch")
+    inf, nan = float("inf"), float("nan")
+    for src, ptys in NONFINITE_CAST:
+        vals = [inf, -inf, nan, 1e308]
+        ins = [{n: (v if t == "float" else [v, 1.0, 2.0] if t == "float3" else [1, 2, 3, 4]) for n, t in ptys.items()} for v in vals]
+        run_probe(run, src, ptys, "nonfinite-cast", inputs=ins)
     sw = swizzle_probes()
     if run.tier != "thorough":
         sw = run.rng.sample(sw, 700 * scale)
@@ -211,7 +272,7 @@ def explore(run, scale=1):
                          key="internal:lowering:%s@%s" % (c[1][0], c[1][1]))
     n = N[run.tier] * scale
     spec = [(n * 3 // 10, None, None), (n * 2 // 10, None, "calls"), (n * 4 // 10, None, "vec"), (n * 1 // 10, dict(max_depth=4), None)]
-    for rec in progfam.evaluate(run, "C05", spec, want=("opt",)):
+    for rec in progfam.evaluate(run, "C05", spec, want=("opt", "irtype")):
         judge_generated(run, rec)
 
 
